@@ -4,6 +4,7 @@ package alt
 
 import (
 	"fmt"
+	"math"
 	"reflect"
 	"time"
 	"unsafe"
@@ -67,8 +68,7 @@ func Match(fingerprint, target any) bool {
 			return false
 		}
 	case int, int8, int16, int32, int64, uint, uint8, uint16, uint32, uint64:
-		i0, _ := asInt(fp)
-		if i1, ok := asInt(target); !ok || i0 != i1 {
+		if !sameInt(fp, target) {
 			return false
 		}
 	case float32, float64:
@@ -136,8 +136,7 @@ func diff(v0, v1 any, one bool, ignores ...Path) (diffs []Path) {
 			diffs = append(diffs, Path{nil})
 		}
 	case int, int8, int16, int32, int64, uint, uint8, uint16, uint32, uint64:
-		i0, _ := asInt(v0)
-		if i1, ok := asInt(v1); !ok || i0 != i1 {
+		if !sameInt(v0, v1) {
 			diffs = append(diffs, Path{nil})
 		}
 	case float32, float64:
@@ -270,6 +269,48 @@ func diff(v0, v1 any, one bool, ignores ...Path) (diffs []Path) {
 		return
 	}
 	return
+}
+
+// overInt64 returns the value of an unsigned integer that does not fit in an
+// int64.
+func overInt64(v any) (u uint64, over bool) {
+	switch tv := v.(type) {
+	case uint64:
+		u = tv
+	case uint:
+		u = uint64(tv)
+	}
+	return u, math.MaxInt64 < u
+}
+
+// sameInt returns true if the integer v0 and the number v1 have the same
+// value. Unsigned values above the int64 range are compared as unsigned and
+// not as the int64 with the same bits.
+func sameInt(v0, v1 any) bool {
+	if u0, over := overInt64(v0); over {
+		if u1, over1 := overInt64(v1); over1 {
+			return u0 == u1
+		}
+		var f float64
+		switch tv := v1.(type) {
+		case float64:
+			f = tv
+		case float32:
+			f = float64(tv)
+		case gen.Float:
+			f = float64(tv)
+		default:
+			return false
+		}
+		return 0.0 <= f && f < 18446744073709551616.0 && uint64(f) == u0
+	}
+	if _, over := overInt64(v1); over {
+		return false
+	}
+	i0, _ := asInt(v0)
+	i1, ok := asInt(v1)
+
+	return ok && i0 == i1
 }
 
 func asInt(v any) (i int64, ok bool) {
